@@ -23,7 +23,10 @@ macro_rules! opaque {
 opaque!(Hostname, Locales, Caps, Fields, TlsS, SaslProfile, FramedW, FramedR, OpenError, ConnectionHandle, CtlTx, FrameTx);
 pub struct MaxFrameSize(pub Uint);
 pub struct ChannelMax(pub u16);
-pub const MIN_MAX_FRAME_SIZE: usize = 512;
+//@@ type file=fe2o3-amqp-types/src/definitions/constant_def.rs kind=const name=MIN_MAX_FRAME_SIZE
+//@@ end
+/// AMQP 1.0 part 2, 2.4.1: 'MIN-MAX-FRAME-SIZE 512: the lower bound for the agreed maximum frame size'
+proof fn spec_min_max_frame_size() ensures MIN_MAX_FRAME_SIZE == 512 {}      // [C06.constants.min-max-frame-size] [C17.constants.min-max-frame-size]
 pub const DEFAULT_CONTROL_CHAN_BUF: usize = 128;
 
 pub fn max_u32(a: u32, b: u32) -> (r: u32) ensures r == (if a >= b { a } else { b }) { if a >= b { a } else { b } }
